@@ -329,7 +329,7 @@ fn go_back<T: Text + ?Sized>(t: &T, mut i: usize, n: usize) -> Option<usize> {
         if i == 0 {
             return None;
         }
-        i = crate::prev_codepoint_ix(t, i);
+        i = crate::symtext::prev_boundary(t, i);
     }
     Some(i)
 }
